@@ -95,11 +95,20 @@ def judge(c, r, tc, root):
     if j is None or not has_derived:
         return problems, notes
     derived_parse = [x for x in j["parse"] if x.startswith("derived.gen.go")]
+    try:
+        text = open(os.path.join(root, c["dir"], "derived.gen.go"), errors="replace").read()
+    except OSError:
+        text = ""
+    if not derived_parse and "invalid type" in text:
+        derived_parse = ["derived.gen.go: mentions go/types' placeholder `invalid type`: " + next(l.strip() for l in text.splitlines() if "invalid type" in l)[:160]]
     if derived_parse:
         cls = "C09/exit0-unparsable-file:" + pl  # a file that does not parse is a bad file whatever the input was
         if c.get("mustok"):
             cls = "C09/exit0-unparsable-file:%s:%s" % (c["family"], pl)
-        problems.append((cls, "exit 0 but derived.gen.go does not parse (%s): %s" % (c["what"], derived_parse[0][:200])))
+        if c.get("tag"):
+            cls = "C09/exit0-unparsable-file:" + c["tag"]
+        problems.append((cls, "exit 0%s but derived.gen.go does not parse (%s): %s" % (
+            "" if out.strip() else " without any message", c["what"], derived_parse[0][:200])))
         return problems, notes
     if c["userbad"]:
         return problems, notes  # the user's own errors make type errors meaningless; parse was checked
@@ -127,7 +136,9 @@ def run(rep):
                        "19 wrong expressions (non-functions, variadic, wrong shape, untyped nil); named twins over one underlying type; broken / "
                        "empty / test-only packages; truncated, garbage and foreign derived.gen.go; import alias clashes. One evaluation = one run "
                        "of the real binary on one package; distinct non-trivial = distinct (plugin, what) cases in which goderive had to "
-                       "reject something or emit code (not the controls); family nonascii (type names of 1-3 non-ASCII letters, same name in 2-3 packages, "
+                       "reject something or emit code (not the controls); family unresolved: an undeclared type in every position of the argument type "
+                       "(bare, pointer/slice/array/chan element, map key, map value, func parameter/result, struct fields, nested two deep) for every "
+                       "type-directed plugin: non-zero exit naming the call, or a file that parses; family nonascii (type names of 1-3 non-ASCII letters, same name in 2-3 packages, "
                        "every letter prefix already taken) must end with exit 0 and a file that parses and type-checks")
     rep.assumptions += ["panics inside go/types, x/tools loader and go/format are outside the model; the broken-file stream exercises them",
                         "the type-check oracle is go/types with the source importer (trusted)",
